@@ -10,13 +10,13 @@ RULE = ('each generated program (operation sequence x device configuration x env
         'models, the async run replaying exactly the choice list of the sync run; families: (a) all operation sequences of length <=2 over the 8-operation alphabet x chunkings x maxdata with <=1 '
         'read-fragment deviation, (b) every handshake decision sequence (0..3 keys, callbacks), (c) failing transfers (FAIL at every point / position, invalid records), (d) a fault of 3 kinds at '
         'every transport-call index of a six-operation session, (e) stalls at every awaited packet, (f) availability sequences of length <=3 incl. empty paths, (g) push sources x callbacks, (i) the device closing a stream instead of sending the next WRTE, (j) legacy CLSE packets with zeroed ids, (k) device replies overtaking the OKAY of the request, '
-        '(h) short writes; oracle: host packet logs byte-equal, results equal, exception types equal, `available` equal after each step, same device-side files, same callback invocations (when the twins structure their transport calls differently the recorded answers are replayed leniently and only observable behaviour is compared); non-trivial = program has at least one operation; distinct = distinct (family, program, choice list)')
+        '(l) device-level default timeout x per-call transport/read timeouts incl. 0, 0.0 and None against a device with latency (timeouts handed to the transport compared too), (h) short writes; oracle: host packet logs byte-equal, results equal, exception types equal, `available` equal after each step, same device-side files, same callback invocations (when the twins structure their transport calls differently the recorded answers are replayed leniently and only observable behaviour is compared); non-trivial = program has at least one operation; distinct = distinct (family, program, choice list)')
 ASSUMPTIONS = ['adbsim device model and in-memory twin transports that differ only in being awaited', 'exception messages are not compared, only types']
 
 
 def run_prog(twin, prog, ch):
     s = Session(ch, prog['cfg'], twin=twin, frag=prog.get('frag', False), wcap=prog.get('wcap', False), eps=prog.get('eps', 0.0),
-                order_budgeted=True, max_calls=30000)
+                order_budgeted=True, max_calls=30000, default_timeout=prog.get('default_timeout'))
     try:
         if 'local_id' in prog:
             s.dev._local_id = prog['local_id']
@@ -27,7 +27,7 @@ def run_prog(twin, prog, ch):
             avail.append(s.dev.available)
             if r[0] != 'ok' and prog.get('stop_on_exc'):
                 break
-        return {'res': res, 'avail': avail, 'host': monitor.host_log(s.env.events), 'fs': scen.fs_view(s.env), 'cb': list(s.cb_log), 'calls': s.env.calls,
+        return {'res': res, 'avail': avail, 'host': monitor.host_log(s.env.events), 'fs': scen.fs_view(s.env), 'cb': list(s.cb_log), 'calls': s.env.calls, 'timeouts': list(s.env.timeouts) if prog.get('compare_timeouts') else None,
                 'points': [(k, n) for (k, n, _c) in ch.points]}
     finally:
         s.finish()
@@ -60,6 +60,9 @@ def run_pair(params, ch):
             viol.append({'msg': 'host packet logs differ at packet %d: sync %r, async %r' % (n, a['host'][n:n + 1], b['host'][n:n + 1])})
         if a['fs'] != b['fs']:
             viol.append({'msg': 'device-side files differ between the twins'})
+        if a['timeouts'] != b['timeouts']:
+            n = next((i for i, (x, y) in enumerate(zip(a['timeouts'], b['timeouts'])) if x != y), min(len(a['timeouts']), len(b['timeouts'])))
+            viol.append({'msg': 'timeouts handed to the transport differ at call %d: sync %r, async %r (device default %r)' % (n, a['timeouts'][n:n + 1], b['timeouts'][n:n + 1], prog.get('default_timeout'))})
         if a['cb'] != b['cb']:
             viol.append({'msg': 'progress callback invocations differ: sync %r, async %r' % (a['cb'][:3], b['cb'][:3])})
     return {'outcome': (tuple(r[:2] if r[0] != 'ok' else 'ok' for r in a['res']), len(a['host'])), 'viol': viol,
@@ -187,6 +190,26 @@ def programs(tier):
         cfg['okay_order'] = 'choice'
         progs.append({'cfg': cfg, 'steps': [con] + [scen.op_tuple(o, 5000) for o in ('stat', 'list', 'pull', 'push')]})
     fam['reply-before-okay'] = (progs, {'okay-order': 2})
+    # (l) timeout arguments: device-level default x per-call transport/read timeouts (None, 0, 0.0, small, large; int and float) against a
+    # device that answers with some latency -- a zero timeout means polling in both twins
+    progs = []
+    for dflt in (None, 2.0, 0, 3):
+        for tt in ('omit', None, 0, 0.0, 0.05, 5):
+            for rt in ('omit', 0, 0.2, 7):
+                for lat in (0.0, 0.02):
+                    kw = {}
+                    if tt != 'omit':
+                        kw['transport_timeout_s'] = tt
+                    if rt != 'omit':
+                        kw['read_timeout_s'] = rt
+                    cfg = scen.ops_cfg('two', 4096)
+                    if lat:
+                        cfg['open_delay'] = {b'shell:c': lat, b'sync:': lat}
+                        cfg['wrte_delay'] = lat
+                    progs.append({'cfg': cfg, 'default_timeout': dflt, 'compare_timeouts': True,
+                                  'steps': [('connect',), ('shell', 'c', dict(kw, decode=False)), ('stat', '/f', dict(kw)), ('push', ('bytes', scen.push_data(5000)), '/g', dict(kw, mtime=7)),
+                                            ('shell', 'c', {'decode': False})]})
+    fam['timeout-arguments'] = (progs, {})
     # (h) short writes
     progs = [{'cfg': scen.ops_cfg('two', 4096), 'wcap': True, 'steps': [con, scen.op_tuple('shell'), scen.op_tuple('push', 5000), scen.op_tuple('stat')]}]
     fam['short-writes'] = (progs, {'wcap': 2 if tier == 'quick' else 3})
